@@ -4,7 +4,7 @@ from hypothesis import strategies as st
 from vlib import env, core, gen, asserts, printer, gread, geom, kf  # noqa: F401
 
 ID = "C02"
-BUDGET = {"quick": 2500, "thorough": 25000}
+BUDGET = {"quick": 2000, "thorough": 20000}
 PROFILE = gen.profile(retract="wild", rebase=True, reg_events=False, exact=False, arc_r=True, arc_rel=True,
                       e_rel_ok=True, g10pl=True, visits=False, scripts=True, at_w=3, offon=3)
 RULE = ("The path is generated first (moves, I/J and R arcs incl. under G91, matched/unmatched/combined E-only and G10/G11 "
@@ -121,6 +121,28 @@ def cases(draw):
                 import math
                 beyond = a.a0 + a.sweep * 1.15       # just past the arc's end, on the circle
                 cands.append({"type": "circ", "cx": a.cx + a.r * math.cos(beyond), "cy": a.cy + a.r * math.sin(beyond), "r": 0.6, "id": "e%d" % k})
+        tiles = []
+        if draw(st.integers(0, 3)) == 0:
+            # "dense": the free space around the path is tiled with small regions, so a filter whose tracked position strays
+            # from the true path by a millimetre or two (stale cache, wrong frame, drift) runs into one
+            xs, ys = [q[0] for q in pts], [q[1] for q in pts]
+            for a in arcs:
+                xs += [a.cx - a.r, a.cx + a.r]
+                ys += [a.cy - a.r, a.cy + a.r]
+            x0, x1 = max(min(xs) - 6, -40.0), min(max(xs) + 6, 80.0)
+            y0, y1 = max(min(ys) - 6, -40.0), min(max(ys) + 6, 80.0)
+            step = max(2.5, ((x1 - x0) * (y1 - y0) / 60.0) ** 0.5)
+            off = draw(st.sampled_from([0.0, 0.7, 1.3]))
+            k, gx = 0, x0 + off
+            while gx < x1:
+                gy = y0 + off
+                while gy < y1:
+                    if abs(gx) > 3 or abs(gy) > 3:
+                        tiles.append({"type": "rect", "x1": gx, "y1": gy, "x2": gx + step * 0.8, "y2": gy + step * 0.8, "id": "t%d" % k})
+                        k += 1
+                    gy += step
+                gx += step
+        regions += [t for t in tiles if clear_of(t, pts, boxes)]       # (tiles are kept or dropped, not shrunk)
         for c in cands:
             f = fit(c, pts, boxes)
             if f is not None and (f["type"] == "circ" or (f["x1"] > 2 or f["y1"] > 2 or True)):
